@@ -372,6 +372,14 @@ def run(ck, facts):
     c16.run(C.SubCheck(ck, "R8", "slices and strings cross unchanged, NULL+0 is the empty slice: raw-parts reconstruction rules of the runtime views (rules of C16)", {"R1", "R2"}), facts)
 
 
+    # an optional slice / primitive / struct parameter is declared as the {payload, is_ok} record the macro compiles (rule of C10.R2: the HIR keeps the DiplomatOption wrapper)
+    import c10
+    c10.run(C.SubCheck(ck, "R2", "", ["R2"], key_re=r"/wrapper$|opt-wrapper"), facts)
+
+    # the type a C header is named after is the type whose fields it declares (ids are positions in unfiltered vectors; rule shared with C14.R2)
+    import c14
+    c14.positional_id_rules(ck, "R3", facts)
+
     # ---------------- R9 clauses shared with C05 and C06 (what C sees must be what the macro exports)
     import c05
     import c06
